@@ -10,7 +10,9 @@
 EXTENDS CertV2Props
 
 CONSTANTS MaxDepth,      \* X.509 elements under the root of trust: 1..MaxDepth
-          MaxDefects,    \* simultaneous defects
+          MaxDefects,    \* simultaneous Env choices that deviate from a genuine certificate
+          MaxRenames,    \* of which at most this many are non-canonical NAMINGS of an X.509 element,
+          MaxWithRename, \* and at most this many choices in total once a naming is non-canonical
           Spares,        \* subset of {"none", "fresh", "twin"}: off-path X.509 element
           Embeds         \* subset of {"none", "genuine", "foreign"}: a self-signed root certificate shipped
                          \* INSIDE the certificate as an element named like the root authority
@@ -20,25 +22,36 @@ XNames == <<"x1", "x2", "x3", "x4">>
 Ghost  == "ghost"                        \* a name that no element has
 
 VARIABLES cert, rot,                     \* env: the certificate and the root of trust handed over
-          ndef,                          \* env: defects applied so far
+          ndef, nren,                    \* env: deviations applied so far / of which namings
           phase, cur, visited, chain, certifier, steps,   \* sys
           outcome, failing, reported     \* obs: what the validator returns for the target
-envv == <<cert, rot, ndef>>
+envv == <<cert, rot, ndef, nren>>
 sysv == <<phase, cur, visited, chain, certifier, steps>>
 obsv == <<outcome, failing, reported>>
-vars == <<cert, rot, ndef, phase, cur, visited, chain, certifier, steps, outcome, failing, reported>>
+vars == <<cert, rot, ndef, nren, phase, cur, visited, chain, certifier, steps, outcome, failing, reported>>
 
 (***************************************************************************)
 (* Env: genuine bases                                                      *)
 (***************************************************************************)
+\* `naming` (X.509 only) says which distinguished NAMES are written inside the certificate; the
+\* signature is made by the key recorded in sigBy whatever the names say:
+\*   canon        fresh subject, issuer = subject of the certifying certificate
+\*   selfissued   fresh subject, issuer = that same subject
+\*   likeparent   subject = issuer = subject of the certifying certificate (key-rollover style)
+\*   nomatch      issuer = a name no certificate has
+\*   rootissuer   issuer = the root's subject, on an element that is not the top one
+\*   dupsubject   subject = subject of another X.509 element (not the certifying one)
+\*   rootsubject  subject = the root's subject
+\* Neither the property (CertV2Props never reads the field) nor the code looks at names.
+Namings == {"canon", "selfissued", "likeparent", "nomatch", "rootissuer", "dupsubject", "rootsubject"}
 X509El(by, key, sigBy) == [kind |-> "x509", by |-> by, key |-> key, sigBy |-> sigBy, time |-> "Valid",
-                           curve |-> "P256", binds |-> TRUE, keyValid |-> TRUE]
+                           curve |-> "P256", binds |-> TRUE, keyValid |-> TRUE, naming |-> "canon"]
 AttEl(by)   == [kind |-> "attkey", by |-> by, key |-> "att", sigBy |-> by, time |-> "na",
-                curve |-> "P256", binds |-> TRUE, keyValid |-> TRUE]
+                curve |-> "P256", binds |-> TRUE, keyValid |-> TRUE, naming |-> "na"]
 QuoteEl(by) == [kind |-> "quote", by |-> by, key |-> NoKey, sigBy |-> by, time |-> "na",
-                curve |-> "na", binds |-> TRUE, keyValid |-> TRUE]
+                curve |-> "na", binds |-> TRUE, keyValid |-> TRUE, naming |-> "na"]
 GoodRot == [kind |-> "x509", by |-> RootName, key |-> RootName, sigBy |-> RootName, time |-> "Valid",
-            curve |-> "P256", binds |-> TRUE, keyValid |-> TRUE]
+            curve |-> "P256", binds |-> TRUE, keyValid |-> TRUE, naming |-> "canon"]
 
 ParentOfX(i) == IF i = 1 THEN RootName ELSE XNames[i - 1]
 \* d X.509 elements x1 (top) .. xd (certifies the attestation key), attestation key, quote, and
@@ -62,7 +75,7 @@ Base(d, sp, em) ==
 
 Init == /\ \E d \in 1..MaxDepth, sp \in Spares, em \in Embeds :
               (sp = "none" \/ em = "none") /\ cert = Base(d, sp, em)
-        /\ rot = GoodRot /\ ndef = 0
+        /\ rot = GoodRot /\ ndef = 0 /\ nren = 0
         /\ phase = "env" /\ cur = None /\ visited = {} /\ chain = <<>> /\ certifier = None /\ steps = 0
         /\ outcome = None /\ failing = None /\ reported = None
 
@@ -99,7 +112,18 @@ WrongRoot      == /\ rot.key = RootName
 ForgeTop       == /\ HasForeign /\ cert[XNames[1]].sigBy = RootName
                   /\ cert' = [cert EXCEPT ![XNames[1]].sigBy = "foreign"] /\ UNCHANGED rot
 
+\* the names inside X.509 element n (one of x1..xd) are not the canonical ones
+IsChainX(n)    == \E i \in 1..Len(XNames) : XNames[i] = n
+OrigParentX(n) == LET i == CHOOSE j \in 1..Len(XNames) : XNames[j] = n IN ParentOfX(i)
+DupCandidates(n) == {m \in DOMAIN cert : cert[m].kind = "x509" /\ m # n /\ m # OrigParentX(n)}
+Rename(n, v)   == /\ IsChainX(n) /\ cert[n].naming = "canon"
+                  /\ v = "rootissuer" => n # XNames[1]
+                  /\ v = "dupsubject" => DupCandidates(n) # {}
+                  /\ cert' = [cert EXCEPT ![n].naming = v] /\ UNCHANGED rot
+
 Mutate == /\ phase = "env" /\ ndef < MaxDefects
+          /\ nren > 0 => ndef < MaxWithRename
+          /\ UNCHANGED nren
           /\ \/ \E n \in DOMAIN cert :
                   \/ \E v \in {"Expired", "NotYet"} : SetTime(n, v)
                   \/ BadSig(n) \/ OtherCurve(n) \/ Unbind(n) \/ BadKey(n)
@@ -169,8 +193,13 @@ Walk ==
             /\ chain' = SubSeq(chain, 1, Len(chain) - 1) /\ UNCHANGED <<phase, obsv>>
     /\ UNCHANGED <<envv, visited>>
 
+MutateName == /\ phase = "env" /\ ndef < MaxDefects /\ ndef < MaxWithRename /\ nren < MaxRenames
+              /\ \E n \in DOMAIN cert, v \in Namings \ {"canon"} : Rename(n, v)
+              /\ ndef' = ndef + 1 /\ nren' = nren + 1
+              /\ UNCHANGED <<sysv, obsv>>
+
 SysNext == Start \/ ParseStep \/ Build \/ Walk
-Next == Mutate \/ SysNext
+Next == Mutate \/ MutateName \/ SysNext
 Spec == Init /\ [][Next]_vars /\ WF_vars(Next)
 
 (***************************************************************************)
@@ -187,6 +216,9 @@ OffPathIrrelevant ==
         ((outcome = "valid") <=> SpecValid(Restrict(cert, PathSet(cert, Target)), rot, Target))
 \* model of the code only (not demanded by C07): the element named is the first failing from the root
 NamesFirstBad == outcome = "invalid" => failing = FirstBad(cert, rot, Target)
+\* the names written inside the X.509 elements never matter
+Canonical(c) == [n \in DOMAIN c |-> IF c[n].kind = "x509" THEN [c[n] EXCEPT !.naming = "canon"] ELSE c[n]]
+NamesIrrelevant == Done => ((outcome = "valid") <=> SpecValid(Canonical(cert), rot, Target))
 LoadErrorIffNoPath == Done => ((outcome = "loaderror") <=> (Path(cert, Target) = <<>>))
 Bounded == steps <= 3 * Cardinality(DOMAIN cert) + 4
 Terminates == <>Done
